@@ -150,6 +150,7 @@ structure UnitFacts (consts : List CKind) (base need : Nat) (l : List Ann) : Pro
       ∧ ∀ a ∈ l, LocalFacts (argAt a0.ins 0) consts l a
   sorted : pcsFrom base l = true
   oneFrame : ∀ a ∈ l, a.ins.op = .NewFrame → a.pc = base
+  brackets : linOk 0 0 l = true
 
 theorem unitFacts_of_checkAnns (consts : List CKind) (base need : Nat) (l : List Ann)
     (h : checkAnns consts base need l = true) : UnitFacts consts base need l := by
@@ -157,8 +158,8 @@ theorem unitFacts_of_checkAnns (consts : List CKind) (base need : Nat) (l : List
   | nil => simp [checkAnns] at h
   | cons a0 rest =>
     simp only [checkAnns, Bool.and_eq_true, decide_eq_true_eq] at h
-    obtain ⟨⟨⟨⟨⟨⟨hpc, hop⟩, hneed⟩, hd⟩, hnf⟩, hsorted⟩, hcheck⟩ := h
-    refine ⟨⟨a0, ?_, hop, by simpa using hd, hneed, ?_⟩, hsorted, ?_⟩
+    obtain ⟨⟨⟨⟨⟨⟨⟨hpc, hop⟩, hneed⟩, hd⟩, hnf⟩, hsorted⟩, hcheck⟩, hlin⟩ := h
+    refine ⟨⟨a0, ?_, hop, by simpa using hd, hneed, ?_⟩, hsorted, ?_, hlin⟩
     · simp [findPc, hpc]
     · intro a ha
       exact localFacts_of_localOk _ _ _ _
@@ -169,6 +170,31 @@ theorem unitFacts_of_checkAnns (consts : List CKind) (base need : Nat) (l : List
       · exact hpc
       · have := (List.all_eq_true.mp hnf) a ha
         simp [hnew] at this
+
+/-! ### bracket structure -/
+
+theorem bracketAt_of_linOk (lo : Nat) (l : List Ann) (s t : Nat) (hs : pcsFrom lo l = true)
+    (h : linOk s t l = true) (b : Ann) (hb : b ∈ l) (d : Depth) (hd : b.d = some d) :
+    bracketAt s t l b.pc = some (d.seq, d.str) := by
+  induction l generalizing lo s t with
+  | nil => simp at hb
+  | cons a rest ih =>
+    simp only [pcsFrom, Bool.and_eq_true, decide_eq_true_eq] at hs
+    simp only [linOk, Bool.and_eq_true] at h
+    simp at hb
+    rcases hb with rfl | hb
+    · have h1 := h.1
+      simp only [hd, Bool.and_eq_true, decide_eq_true_eq] at h1
+      simp [bracketAt, h1.1, h1.2]
+    · have hge := pcsFrom_ge _ _ hs.2 b hb
+      have hne : ¬ a.pc = b.pc := by omega
+      simp only [bracketAt, if_neg hne]
+      cases hl : linStep a.ins.op s t with
+      | none => simp [hl] at h
+      | some st =>
+        obtain ⟨s', t'⟩ := st
+        simp only [hl] at h ⊢
+        exact ih _ _ _ hs.2 h.2 hb
 
 /-! ### the invariant of the abstract VM -/
 
